@@ -1,6 +1,7 @@
 package sx
 
 import (
+	"os"
 	"fmt"
 	"go/token"
 	"go/types"
@@ -260,6 +261,9 @@ func (i *interp) visitInstr(fr *frame, instr ssa.Instruction) continuation {
 		i.curFrame = fr
 
 	case *ssa.Panic:
+		if os.Getenv("VERIF_DEBUG_THROW") != "" {
+			fmt.Fprintf(os.Stderr, "PANIC at %s stack: %s\n", i.where(), i.stack())
+		}
 		panic(targetPanic{v: fr.get(instr.X), where: i.where()})
 
 	case *ssa.Send:
